@@ -827,14 +827,14 @@ Proof.
   apply kn_sign, kn_priv. simpl. auto.
 Qed.
 
-(* with only the small repair (F09) the model satisfies every clause but
+(* the variant /repo carries (everything repaired but the relay, F28) satisfies every clause but
    possession against a relaying peer: for peers that do not relay (every
    signature they present is made with a key they hold) the property holds *)
 Definition signs_only_with_own_keys (holds : list key) (h : hello) : Prop :=
   forall c k n over tk, In (RawOne c) (chain_of h) -> c_sig c = Some (SigBy k n over tk) -> In k holds.
 
 Theorem f09_repaired_link_satisfies_property_without_relay holds r s h id msgs :
-  let fx := mkfixes true false true false in
+  let fx := mkfixes true false true true in
   signs_only_with_own_keys holds h ->
   let o := link fx LTls r s h id msgs in
   link_property LTls r s holds h id (out_hs o) (out_disp o) (out_stamp o) (out_crash o).
@@ -894,6 +894,18 @@ Theorem resumption_refuted :
   let t := Some (earlier_cert 2 0, true) in
   let h := Hello [] 0 in
   let '(o, resumed) := link_r pinned LTls RAccept Ed25519 t h IdMatch 2 in
+  resumed = true /\ o = mkout true 2 [2; 2] false /\
+  prop_check LTls RAccept Ed25519 [2; 3] (effective resumed t h) IdMatch
+             (out_hs o) (out_disp o) (out_stamp o) (out_crash o) = [2].
+Proof. vm_compute. auto. Qed.
+
+(* the same for the variant /repo carried before the C08-N1 repair landed (F09 and
+   F29 repaired, tickets still on): kept as the regression witness of that repair *)
+Theorem previous_variant_resumption_refuted :
+  let fx := mkfixes true false true false in
+  let t := Some (earlier_cert 2 0, true) in
+  let h := Hello [] 0 in
+  let '(o, resumed) := link_r fx LTls RAccept Ed25519 t h IdMatch 2 in
   resumed = true /\ o = mkout true 2 [2; 2] false /\
   prop_check LTls RAccept Ed25519 [2; 3] (effective resumed t h) IdMatch
              (out_hs o) (out_disp o) (out_stamp o) (out_crash o) = [2].
@@ -1039,7 +1051,7 @@ Qed.
    is implied by clause 4 there -- witness 6 fails both -- and every other
    clause, 4 included, still has a certificate failing it alone. *)
 Theorem each_check_independent_f09_repaired :
-  let fx := mkfixes true false true false in
+  let fx := mkfixes true false true true in
   forall i c, nth_error independence_witnesses i = Some c ->
     (i <> 4 -> fails_only i (clause_list fx Ed25519 0 0 None c) = true) /\
     (i <> 6 -> fails_only i (clause_list fx Ed25519 0 0 (Some 2) c) = true) /\
